@@ -1,0 +1,18 @@
+//go:build verif
+
+package route
+
+// VerifLen reports the number of patterns held by the cache index and the
+// configured capacity. Only compiled with the verif build tag.
+func (c *GlobCache) VerifLen() (entries, capacity int) {
+	c.m.Range(func(_, _ interface{}) bool {
+		entries++
+		return true
+	})
+	return entries, len(c.l)
+}
+
+// VerifRing returns the weighted ring of a route (the slice the pickers index).
+func (r *Route) VerifRing() []*Target {
+	return r.wTargets
+}
